@@ -187,8 +187,11 @@ func (g *globAnalysis) findMutableGlobals() {
 					if !ok {
 						continue
 					}
-					// the object and everything it owns through pointer / struct / slice / map fields of module types
-					for _, tn := range ownedTypeNames(pt.Elem()) {
+					_ = pt
+					// what the escaping value lets others write: the objects reachable from it through references
+					// (a struct or array copied out by value shares nothing but what its pointer / slice / map
+					// fields point to)
+					for _, tn := range sharedTypeNames(v.Type()) {
 						if fs := writtenFields[tn]; len(fs) > 0 {
 							if _, ok := g.mutable[gl]; !ok {
 								g.mutable[gl] = "its pointer escapes in " + g.p.FuncID(fn) + " (" + g.p.InstrPos(in) + ") and fields of " + tn + " (reachable from it) are written elsewhere"
@@ -1262,6 +1265,50 @@ func ownedTypeNames(t types.Type) []string {
 		case *types.Array:
 			walk(u.Elem(), d+1)
 		case *types.Map:
+			walk(u.Elem(), d+1)
+		}
+	}
+	walk(t, 0)
+	return out
+}
+
+// sharedTypeNames: the named module struct types whose objects are shared (not copied) when a value of type t is
+// handed out: through pointers, slices, maps, channels and interfaces, also when these sit inside value structs or arrays.
+func sharedTypeNames(t types.Type) []string {
+	seen := map[string]bool{}
+	var out []string
+	var walk func(t types.Type, d int)
+	walk = func(t types.Type, d int) {
+		if t == nil || d > 8 {
+			return
+		}
+		switch u := types.Unalias(t).Underlying().(type) {
+		case *types.Pointer:
+			for _, n := range ownedTypeNames(u.Elem()) {
+				if !seen[n] {
+					seen[n] = true
+					out = append(out, n)
+				}
+			}
+		case *types.Slice:
+			for _, n := range ownedTypeNames(u.Elem()) {
+				if !seen[n] {
+					seen[n] = true
+					out = append(out, n)
+				}
+			}
+		case *types.Map:
+			for _, n := range ownedTypeNames(u.Elem()) {
+				if !seen[n] {
+					seen[n] = true
+					out = append(out, n)
+				}
+			}
+		case *types.Struct:
+			for i := 0; i < u.NumFields(); i++ {
+				walk(u.Field(i).Type(), d+1)
+			}
+		case *types.Array:
 			walk(u.Elem(), d+1)
 		}
 	}
